@@ -249,7 +249,9 @@ func runCase(t *testing.T, c Case) kit.Verdict {
 		v.Class("peer:%s", p.Kind)
 	}
 	base := w.Node(0, c.World.Base)
-	honestReady := make(chan struct{})
+	// created inside the bubble (AfterStart): blocking on a channel made
+	// outside it is not a durable block for synctest
+	var honestReady chan struct{}
 	var once sync.Once
 	initial := []int{0}
 	for i, p := range c.Peers {
@@ -259,6 +261,7 @@ func runCase(t *testing.T, c Case) kit.Verdict {
 		}
 	}
 	cfg := netsim.Config{World: w, NumPeers: len(c.Peers), Initial: initial, Prefill: c.World.Base - c.BlockLag, PrefillFilterTip: c.FilterPrefill,
+		AfterStart: func(*netsim.Sim) { honestReady = make(chan struct{}) },
 		DialGate: func(i int) <-chan struct{} {
 			if i == 0 {
 				return nil
